@@ -103,6 +103,11 @@ func NewPipeline() (*Pipeline, error) {
 
 func (pipeline *Pipeline) interpolateParameters() {
 	for _, input := range pipeline.Inputs {
+		// a null list element in the configuration; reported by LoadSchemas()
+		if input == nil {
+			continue
+		}
+
 		// An error can only happen with the input isn't descriptive.
 		// This case should have already been handled before
 		// interpolateParameters() is called.
@@ -207,6 +212,10 @@ func (pipeline *Pipeline) LoadSchemas(ctx context.Context) (ast.Schemas, error) 
 
 	// Parse inputs
 	for _, input := range pipeline.Inputs {
+		if input == nil {
+			return nil, fmt.Errorf("empty input")
+		}
+
 		schemas, err := input.LoadSchemas(ctx)
 		if err != nil {
 			return nil, err
@@ -237,6 +246,10 @@ func (pipeline *Pipeline) OutputLanguages() (languages.Languages, error) {
 	outputs := make(languages.Languages)
 
 	for _, output := range pipeline.Output.Languages {
+		if output == nil {
+			return nil, fmt.Errorf("empty language configuration")
+		}
+
 		switch {
 		case output.Go != nil:
 			outputs[golang.LanguageRef] = golang.New(*output.Go)
